@@ -25,7 +25,7 @@ for p in props:
     })
 man = {
     "version": 1,
-    "setup_cmd": "cd lean && lake build PedalModel PedalProofs driver",
+    "setup_cmd": "./setup.sh",
     "hooks": reg["_hooks"],
     "engines": [{"name": "lean4-model+correspondence", "path": "lean/ harness/ check",
                  "serves_properties": [c["property_id"] for c in checks],
